@@ -4,7 +4,7 @@ import itertools
 import numpy as np
 import z3
 
-from symx import core, lib
+from symx import core, lib, contracts
 from symx.core import SV, sqrt
 from props import c02
 
@@ -265,6 +265,12 @@ def h_error_band(cx, descs, model):
     else:
         f = lambda a, x: a[0] * (anp.exp if cx.mode == 'conc' else (lambda v: core.fn('exp', v)))(-a[1] * x)
         grad = lambda a, x: [core.fn('exp', -a[1] * x), -x * a[0] * core.fn('exp', -a[1] * x)]
+    if cx.mode == 'sym':
+        # an eigen-decomposition inside error_band (none on the current tree) meets its LAPACK contract instead of the covariance helper's placeholder
+        from symx.npshim import NPShim
+        sh = NPShim()
+        sh.__dict__['_linalg_over'] = dict(eigh=contracts.eigh)
+        cx.patch(F, 'np', sh)
     band = F.error_band(xs, f, obs)
     cov = pe.covariance(obs)
     for k, x in enumerate(xs):
